@@ -3,6 +3,7 @@ package main
 import (
 	"context"
 	"fmt"
+	"reflect"
 	"runtime"
 	"time"
 
@@ -157,6 +158,13 @@ func run(spec Scenario) outcome {
 			}
 		}
 
+		if spec.EarlyWait {
+			// Wait() callers that are parked before anything is cancelled: the lane's end releases them
+			// all at the same moment
+			for w := 1; w < spec.Waiters; w++ {
+				sc.spawn(func() { sc.tl.Wait() })
+			}
+		}
 		// ---- phase 1: producers ----------------------------------------------------------------------
 		for p := range spec.Producers {
 			p := p
@@ -199,7 +207,7 @@ func run(spec Scenario) outcome {
 			// system at rest => every accepted task has been started (exactly once), and all
 			// producers have returned
 			for _, t := range sc.tasks {
-				if t.rc.Load() == rcNil && t.enters.Load() != 1 {
+				if t.spec.Kind != "nil" && t.rc.Load() == rcNil && t.enters.Load() != 1 {
 					sc.violate("C06", "accepted-not-started", "with the context live and all running tasks returned, every accepted task is started once the lane is at rest",
 						fmt.Sprintf("task %d (%s, lane %d) was accepted but started %d times; lane: %s", t.id, t.spec.Kind, t.lane.Load(), t.enters.Load(), describe(r.lane)))
 					break
@@ -247,6 +255,11 @@ func run(spec Scenario) outcome {
 		sc.spawn(func() { sc.push(t, lane) })
 		out.postCancel++
 	}
+	if !spec.EarlyWait {
+		for w := 1; w < spec.Waiters; w++ {
+			sc.spawn(func() { sc.tl.Wait() }) // further concurrent Wait() callers: all of them must return
+		}
+	}
 	sc.spawn(func() {
 		sc.tl.Wait()
 		if n := int(sc.exits.Load()); !spec.NoHook && n < 2*spec.LaneSize {
@@ -282,6 +295,9 @@ func run(spec Scenario) outcome {
 	cr, wr := sc.cancelRet.Load(), sc.waitRet.Load()
 	for _, t := range sc.tasks {
 		rc := t.rc.Load()
+		if t.spec.Kind == "nil" {
+			continue
+		}
 		if rc > rcNil && t.enters.Load() > 0 {
 			sc.violate("C06", "rejected-started", "a task whose PushTask returned an error is never started", fmt.Sprintf("task %d: PushTask returned %s, started %d times", t.id, rcName(rc), t.enters.Load()))
 		}
@@ -314,6 +330,15 @@ func finishAfterLeak(sc *scn, out *outcome, finish func() outcome) outcome {
 	return o
 }
 
+func (sc *scn) hasNil() bool {
+	for _, t := range sc.tasks {
+		if t.spec.Kind == "nil" {
+			return true
+		}
+	}
+	return false
+}
+
 func stuckKey(r rest) string {
 	seen := map[string]bool{}
 	key := ""
@@ -328,6 +353,17 @@ func stuckKey(r rest) string {
 		}
 	}
 	return key
+}
+
+// equalPanic compares a reported panic value with a raised one; == where the dynamic type is
+// comparable, reflect.DeepEqual for the uncomparable kinds (their content carries the task id).
+func equalPanic(a, b any) bool {
+	switch b.(type) {
+	case panicSlice, panicMap:
+		return reflect.DeepEqual(a, b)
+	}
+	defer func() { recover() }()
+	return a == b
 }
 
 // diedCheck: a lane goroutine that has ended while the context is live.
@@ -354,8 +390,8 @@ func (sc *scn) atRestChecks(out *outcome, phase string, live bool) {
 	if s.PendingTask < 0 || s.PendingTask > maxPending {
 		sc.violate("C14", "pending-bounds", fmt.Sprintf("0 <= PendingTask <= %d", maxPending), fmt.Sprint(s.PendingTask))
 	}
-	if !live {
-		return
+	if !live || sc.hasNil() {
+		return // a nil task leaves the pending count when a worker takes it, which cannot be observed
 	}
 	out.pendingCmp++
 	if s.PendingTask != accepted-started {
@@ -385,7 +421,7 @@ func (sc *scn) panicChecks(out *outcome) {
 	out.panicsSeen += len(raised)
 	if len(raised) > 0 {
 		for _, t := range sc.tasks {
-			if t.rc.Load() == rcNil && t.spec.Kind != "panic" && t.spec.Kind != "gatepanic" && t.enters.Load() != 1 {
+			if t.rc.Load() == rcNil && t.spec.Kind != "panic" && t.spec.Kind != "gatepanic" && t.spec.Kind != "nil" && t.enters.Load() != 1 {
 				sc.violate("C14", "task-lost-after-panic", "a panicking task affects nothing but itself: every other accepted task is still started exactly once",
 					fmt.Sprintf("task %d (%s, lane %d) started %d times after %d panics", t.id, t.spec.Kind, t.lane.Load(), t.enters.Load(), len(raised)))
 				break
@@ -393,6 +429,9 @@ func (sc *scn) panicChecks(out *outcome) {
 		}
 	}
 	lp := sc.tl.Status().LastPanic
+	if sc.hasNil() {
+		return // the recovered nil dereference of a nil task is a legitimate LastPanic too
+	}
 	if len(raised) == 0 {
 		if lp != nil {
 			sc.violate("C14", "lastpanic-spurious", "LastPanic is nil when no task panicked", fmt.Sprintf("%v", lp))
@@ -400,7 +439,7 @@ func (sc *scn) panicChecks(out *outcome) {
 		return
 	}
 	for _, v := range raised {
-		if func() (eq bool) { defer func() { recover() }(); return lp == v }() {
+		if equalPanic(lp, v) {
 			return
 		}
 	}
